@@ -30,7 +30,7 @@ type c12Case struct {
 	Kind    string            `json:"kind"`
 }
 
-const maxReadFile = 20000
+const maxReadFile = 200000
 
 var c12Fixtures []string
 
@@ -121,7 +121,17 @@ func c12Gen(r *rand.Rand, tier string, idx int) any {
 	case k < 14:
 		c.Kind = "include-graph"
 		g := r.Intn(6)
+		if r.Intn(150) == 0 {
+			g = 6 + r.Intn(2) // rare: each such parse reads the file 65535 times
+		}
 		switch g {
+		case 6: // a file including itself twice: 2^depth parses under a depth bound
+			b = []byte("\"a\": b\n$include /virtual/main\nset x y\n$include /virtual/main\n")
+			c.Files["/virtual/main"] = b
+		case 7: // mutual inclusion, twice each way
+			b = []byte("$include /virtual/a\n")
+			c.Files["/virtual/a"] = []byte("$include /virtual/b\n\"a\": b\n$include /virtual/b\n")
+			c.Files["/virtual/b"] = []byte("$include /virtual/a\nset x y\n$include /virtual/a\n")
 		case 0: // self include
 			b = []byte("$include /virtual/main\n\"a\": b\n")
 			c.Files["/virtual/main"] = b
@@ -159,7 +169,7 @@ func c12Gen(r *rand.Rand, tier string, idx int) any {
 	return c
 }
 
-var errTooManyReads = errors.New("verif: more than 20000 ReadFile calls for one parse (unbounded $include recursion)")
+var errTooManyReads = errors.New("verif: more than 200000 ReadFile calls for one parse (unbounded $include recursion)")
 
 func c12Run(env *fw.Env, raw json.RawMessage) fw.Outcome {
 	var c c12Case
@@ -274,9 +284,9 @@ func init() {
 	fw.Register(&fw.Prop{
 		ID:    "C12",
 		Level: "exploration",
-		Rule: "inputs derived from grammar-generated programs (C13's generator) and the repository's fixtures by: truncation at a PRNG offset, byte flips, inserted lone directives/modifiers/unterminated quotes (50 fragments), single truncated lines, 10-10000-deep $if, 64 KiB-1 MiB lines, CR/LF/NUL mixes, random bytes, and include graphs (self, 2-cycle, chain, diamond, missing, erroring, cycle inside $if) served through ReadFileFunc; x strict x halt-on-error x (mode, term, app); each parsed in a worker process through ParseBytes and Parser.Parse; oracle = returns without panic or fatal error and with at most 20000 ReadFile calls. " +
+		Rule: "inputs derived from grammar-generated programs (C13's generator) and the repository's fixtures by: truncation at a PRNG offset, byte flips, inserted lone directives/modifiers/unterminated quotes (50 fragments), single truncated lines, 10-10000-deep $if, 64 KiB-1 MiB lines, CR/LF/NUL mixes, random bytes, and include graphs (self, 2-cycle, chain, diamond, missing, erroring, cycle inside $if, a file including itself twice, two files including each other twice) served through ReadFileFunc; x strict x halt-on-error x (mode, term, app); each parsed in a worker process through ParseBytes and Parser.Parse; oracle = returns without panic or fatal error and with at most 200000 ReadFile calls. " +
 			"distinct non-trivial = distinct (mutation kind, strict, halt, length class) tuples",
-		Assumptions: []string{"a fatal runtime error (stack overflow) kills the worker and is attributed by the driver to the case that was running", "more than 20000 ReadFile calls for one parse on <= 6 files is 'recurses without bound'"},
+		Assumptions: []string{"a fatal runtime error (stack overflow) kills the worker and is attributed by the driver to the case that was running", "more than 200000 ReadFile calls for one parse on <= 6 files is 'recurses without bound'"},
 		N: func(tier string) int {
 			if tier == "thorough" {
 				return 1500000
